@@ -99,8 +99,11 @@ func checkC15(e *Env) {
 						t[pos] = marker
 						send(c15exp{lang: lang, s: strings.Join(t, " "), defect: "unknown", n: n, unknown: []string{marker}, sub: "marker"})
 					}
-					for k := 0; k < 6; k++ {
+					for k := 0; k < 12; k++ {
 						pos := r.Intn(n)
+						if k >= 6 && k%2 == 0 {
+							pos = n - 1 // the last word
+						}
 						t := append([]string(nil), w...)
 						var unk string
 						sub := ""
@@ -128,6 +131,28 @@ func checkC15(e *Env) {
 						case 5:
 							unk = "x\x00y" + itoa(r.Intn(1000))
 							sub = "nul-inside"
+						case 6:
+							unk = "100%s%d%v" + itoa(r.Intn(1000))
+							sub = "percent-verbs"
+						case 7:
+							unk = "back`tick`" + itoa(r.Intn(1000))
+							sub = "backtick"
+						case 8: // a proper prefix of a list word that is not itself a list word
+							rs := []rune(w[pos])
+							unk = string(rs[:len(rs)-1]) + ""
+							if _, in := m.Index[lang][unk]; in || unk == "" {
+								unk = w[pos] + "zz"
+							}
+							sub = "prefix-of-list-word"
+						case 9:
+							unk = "qq\xffzz" + itoa(r.Intn(1000))
+							sub = "invalid-utf8-inside"
+						case 10:
+							unk = w[pos] + "\u0301"
+							sub = "extra-combining-mark"
+						case 11:
+							unk = strings.Repeat("k", []int{70, 300, 900, 5000, 70000}[rep%5]) + itoa(r.Intn(1000))
+							sub = "long-token"
 						}
 						t[pos] = unk
 						send(c15exp{lang: lang, s: strings.Join(t, " "), defect: "unknown", n: n, unknown: []string{unk}, sub: sub})
